@@ -261,5 +261,26 @@ def refTargets (c : Cfg α) (pref prefTotal : α) : α → α → List (Step α)
     let o := ampStep c pref prefTotal pd pv s.inp
     (pref + o.dpInt, pref + o.dpInt - o.outVoa) :: refTargets c pref prefTotal o.retDp o.retVoa rest
 
+/-! ### reference input powers (`set_fiber_input_power`, `set_roadm_input_powers`) -/
+
+/-- the reference-channel power the design records at the input of every element of a designed line (and, as last
+entry, at the input of the endpoint that ends it): passive elements subtract their `loss` (a RamanFiber its plain
+loss: the estimated Raman gain is not considered by these two functions), an amplifier restarts the walk at
+`pref_ch_db + _delta_p − out_voa` -/
+def refIns (pref : α) : α → List (Elem α) → List (AmpOut α) → List α
+  | p, [], _ => [p]
+  | p, .edfa _ _ :: rest, o :: outs => p :: refIns pref (pref + o.dpInt - o.outVoa) rest outs
+  | p, .edfa _ _ :: _, [] => [p]
+  | p, .fiber _ q :: rest, outs => p :: refIns pref (p - q.loss) rest outs
+  | p, .fused _ l :: rest, outs => p :: refIns pref (p - l) rest outs
+
+/-- the same walk with the amplifiers doing what they do: `− in_voa + gain − out_voa` -/
+def propIns : α → List (Elem α) → List (AmpOut α) → List α
+  | p, [], _ => [p]
+  | p, .edfa _ _ :: rest, o :: outs => p :: propIns (p - o.inVoa + o.gain - o.outVoa) rest outs
+  | p, .edfa _ _ :: _, [] => [p]
+  | p, .fiber _ q :: rest, outs => p :: propIns (p - q.loss) rest outs
+  | p, .fused _ l :: rest, outs => p :: propIns (p - l) rest outs
+
 end
 end Gnpy.Chain
